@@ -1,4 +1,8 @@
 """C10 - REQUIRED parameters are filled from the config or the call fails cleanly."""
+import copy
+import functools
+import typing
+
 import gin
 from gin import config as gc
 from vf import rt
@@ -6,6 +10,47 @@ from vf import world
 
 R = gin.REQUIRED
 MODES = ['omitted', 'pos REQUIRED', 'kw REQUIRED', 'pos value', 'kw value']
+
+
+# ---- extra probes (module path `vw10`), registered once per process -----------------------------
+def _pf(a, b, c=3):
+  world.rec('preq', a, b, c)
+  return (a, b, c)
+
+
+if 'vw10.NTR' not in gc._REGISTRY:
+
+  @gin.configurable(module='vw10')
+  class NTR(typing.NamedTuple):
+    """built through __new__: the marker index is offset by `cls`"""
+    a: int
+    b: int = gin.REQUIRED
+
+  # the marker is a keyword-only default of the partial object: signature (a, *, b=REQUIRED, c=3)
+  preq = gin.external_configurable(functools.partial(_pf, b=gin.REQUIRED), 'preq', module='vw10')
+
+  @gin.configurable('famr', module='vw10.x.m')
+  def famr_x(p=gin.REQUIRED):
+    world.rec('famr_x', p)
+    return p
+
+  @gin.configurable('famr', module='vw10.y.m')
+  def famr_y(p=gin.REQUIRED):
+    world.rec('famr_y', p)
+    return p
+
+  @gin.configurable(module='vw10')
+  @world._agnostic
+  def wreq(a=gin.REQUIRED, b=world.DB):
+    """signature REQUIRED hidden behind a signature-agnostic functools.wraps decorator"""
+    world.rec('wreq', a, b)
+    return (a, b)
+else:  # pragma: no cover - a second import of this module in one process
+  NTR = gc._REGISTRY['vw10.NTR'].wrapper
+  preq = gc._REGISTRY['vw10.preq'].wrapper
+  famr_x = gc._REGISTRY['vw10.x.m.famr'].wrapper
+  famr_y = gc._REGISTRY['vw10.y.m.famr'].wrapper
+  wreq = gc._REGISTRY['vw10.wreq'].wrapper
 
 
 def _bound(active_s, p_root, v_root, p_s, v_s):
@@ -25,6 +70,38 @@ def _parse_missing(msg):
     tail = msg[i + len('not provided in config: '):].split('\n')[0]
     import ast
     return head, ast.literal_eval(tail)
+
+
+def _names_cfg(head, full):
+  """The text between the backticks of the message is an unambiguous spelling of the configurable
+  registered as `full` (it resolves, through the public lookup, to that very configurable)."""
+  with rt.native():
+    if head is None:
+      return False
+    i = head.find('`')
+    j = head.find('`', i + 1)
+    if i < 0 or j < 0:
+      return rt.no('no selector between backticks in %r' % (head,))
+    sel = head[i + 1:j].rsplit('/', 1)[-1]      # a scope prefix in the spelling would be fine
+    try:
+      return (gin.get_configurable(sel) is gin.get_configurable(full)) or rt.no(
+          'message names %r, called %r' % (sel, full))
+    except Exception as e:   # ambiguous / unknown / malformed spelling
+      return rt.no('message names %r which does not resolve: %r' % (sel, e))
+
+
+def _is_missing_error(exc, missing, short, full):
+  """RuntimeError naming the configurable and exactly `missing` (already in signature order)."""
+  if not isinstance(exc, RuntimeError):
+    with rt.native():
+      return rt.no('expected RuntimeError, got %r' % (exc,))
+  head, names = _parse_missing(str(exc))
+  with rt.native():
+    if names != missing:
+      return rt.no('names %r, expected %r' % (names, missing))
+    if short is not None and ('`%s`' % short) not in head:
+      return rt.no('head %r' % (head,))
+  return _names_cfg(head, full)
 
 
 def c10_req(nonev: int, ins: bool, ma: int, mb: int, mc: int,
@@ -108,7 +185,7 @@ def c10_req(nonev: int, ins: bool, ma: int, mb: int, mc: int,
       return False
     head, names = _parse_missing(str(exc))
     with rt.native():
-      return names == missing and '`req`' in head
+      return names == missing and '`req`' in head and _names_cfg(head, 'vw.req')
   if type_error:
     return isinstance(exc, TypeError) and not world.LOG
   if exc is not None or len(world.LOG) != 1:
@@ -121,19 +198,186 @@ def c10_req(nonev: int, ins: bool, ma: int, mb: int, mc: int,
           rt.same('c', kwargs['c'], exp_c) and kwargs['d'] == world.DD)
 
 
+def _shape_vartail(mx, my, m2, b2, v2, ca, cx, cy):
+  """reqvar(a, *rest): the marker in the named slot with a *args tail present, and / or in the tail.
+  mx: a is a value / positional REQUIRED; my: tail of length 2 / 1 / 0;
+  m2: marker nowhere in the tail / at tail[0] / at tail[1] / at both."""
+  if mx == 2:
+    rt.discard()
+  tail = [[cx, cy], [cx], []][my]
+  marked = {0: [], 1: [0], 2: [1], 3: [0, 1]}[m2]
+  for i in marked:
+    if i >= len(tail):
+      rt.discard()
+    tail[i] = R
+  if b2: gin.bind_parameter('vw.reqvar.a', v2)
+  first = R if mx == 1 else ca
+  exc = None
+  try:
+    world.reqvar(first, *tail)
+  except Exception as e:
+    exc = e
+  if marked:
+    # "passing it for an unnamed variadic positional argument is rejected"
+    if world.LOG or exc is None:
+      return rt.no('marker in the *args tail was not rejected')
+    if isinstance(exc, ValueError):
+      return True
+    if mx == 1 and not b2:
+      # both clauses apply (named slot unfilled AND marker in the tail): either error is a clean failure
+      return _is_missing_error(exc, ['a'], 'reqvar', 'vw.reqvar')
+    with rt.native():
+      return rt.no('expected ValueError, got %r' % (exc,))
+  if mx == 1 and not b2:
+    if world.LOG:
+      return rt.no('body ran')
+    return _is_missing_error(exc, ['a'], 'reqvar', 'vw.reqvar')
+  if exc is not None or len(world.LOG) != 1:
+    return False
+  _, args, _, _ = world.LOG[0]
+  if len(args) != 1 + len(tail):
+    return rt.no('tail lost or grown')
+  for got in args:
+    if got is R:
+      return rt.no('marker reached the body')
+  if not rt.same('a', args[0], v2 if mx == 1 else ca):
+    return False
+  for i in range(len(tail)):      # the tail keeps its length, order and values
+    if not rt.same('tail', args[1 + i], tail[i]):
+      return False
+  return True
+
+
+def _shape_ntr(mx, m2, bx, b2, vx, v2, ca, c2):
+  """NTR(a, b=REQUIRED), a typing.NamedTuple: constructed through __new__(cls, a, b)."""
+  if m2 == 1 and mx == 2:
+    rt.discard()              # a positional b needs a positional a
+  if bx: gin.bind_parameter('vw10.NTR.a', vx)
+  if b2: gin.bind_parameter('vw10.NTR.b', v2)
+  pos, kw, missing = [], {}, []
+  if mx == 0: pos.append(ca); exp_a = ca
+  else:
+    if mx == 1: pos.append(R)
+    else: kw['a'] = R
+    if bx: exp_a = vx
+    else: missing.append('a'); exp_a = None
+  if m2 == 3: kw['b'] = c2; exp_b = c2
+  else:
+    if m2 == 1: pos.append(R)
+    elif m2 == 2: kw['b'] = R
+    if b2: exp_b = v2
+    else: missing.append('b'); exp_b = None
+  exc = out = None
+  try:
+    out = NTR(*pos, **kw)
+  except Exception as e:
+    exc = e
+  if missing:
+    if out is not None:
+      return rt.no('instance built')
+    return _is_missing_error(exc, missing, 'NTR', 'vw10.NTR')
+  if exc is not None or out is None:
+    return False
+  if out.a is R or out.b is R:
+    return rt.no('marker reached __new__')
+  return rt.same('a', out.a, exp_a) and rt.same('b', out.b, exp_b)
+
+
+def _shape_partial(mx, my, m2, bx, by, b2, vx, vy, v2, ca, cy, c2):
+  """preq = external_configurable(functools.partial(_pf, b=REQUIRED)): signature (a, *, b=REQUIRED, c=3)."""
+  if m2 == 1:
+    rt.discard()              # b is keyword-only in the partial's signature
+  if bx: gin.bind_parameter('vw10.preq.a', vx)
+  if by: gin.bind_parameter('vw10.preq.c', vy)
+  if b2: gin.bind_parameter('vw10.preq.b', v2)
+  pos, kw, missing = [], {}, []
+  if mx == 0: pos.append(ca); exp_a = ca
+  else:
+    if mx == 1: pos.append(R)
+    else: kw['a'] = R
+    if bx: exp_a = vx
+    else: missing.append('a'); exp_a = None
+  if m2 == 3: kw['b'] = c2; exp_b = c2
+  else:
+    if m2 == 2: kw['b'] = R
+    if b2: exp_b = v2
+    else: missing.append('b'); exp_b = None
+  if my == 2: kw['c'] = cy; exp_c = cy
+  elif my == 1:               # caller marks a parameter that has an ordinary default
+    kw['c'] = R
+    if by: exp_c = vy
+    else: missing.append('c'); exp_c = None
+  else:
+    exp_c = vy if by else 3
+  exc = None
+  try:
+    preq(*pos, **kw)
+  except Exception as e:
+    exc = e
+  if missing:
+    if world.LOG:
+      return rt.no('body ran')
+    return _is_missing_error(exc, missing, 'preq', 'vw10.preq')
+  if exc is not None or len(world.LOG) != 1:
+    return False
+  _, args, _, _ = world.LOG[0]
+  for got in args:
+    if got is R:
+      return rt.no('marker reached the body')
+  return rt.same('a', args[0], exp_a) and rt.same('b', args[1], exp_b) and rt.same('c', args[2], exp_c)
+
+
+def _shape_family(mx, m2, bx, b2, vx, v2, c2):
+  """Two configurables sharing the short name `famr` (vw10.x.m.famr / vw10.y.m.famr), p=REQUIRED:
+  the error must name the one that was called."""
+  if mx == 2:
+    rt.discard()
+  mine, other = (('x', 'y'), ('y', 'x'))[mx]
+  if b2: gin.bind_parameter('vw10.%s.m.famr.p' % mine, v2)
+  if bx: gin.bind_parameter('vw10.%s.m.famr.p' % other, vx)   # must never be used
+  fn = (famr_x, famr_y)[mx]
+  pos, kw = [], {}
+  if m2 == 1: pos.append(R)
+  elif m2 == 2: kw['p'] = R
+  elif m2 == 3: kw['p'] = c2
+  exc = None
+  try:
+    fn(*pos, **kw)
+  except Exception as e:
+    exc = e
+  if m2 != 3 and not b2:
+    if world.LOG:
+      return rt.no('body ran')
+    return _is_missing_error(exc, ['p'], None, 'vw10.%s.m.famr' % mine)
+  if exc is not None or len(world.LOG) != 1:
+    return False
+  name, args, _, _ = world.LOG[0]
+  if args[0] is R or name != 'famr_' + mine:
+    return False
+  return rt.same('p', args[0], c2 if m2 == 3 else v2)
+
+
 def c10_shapes(shape: int, mx: int, my: int, m2: int, bx: bool, by: bool, b2: bool,
                vx: int, vy: int, v2: int, cx: int, cy: int, c2: int, ca: int) -> bool:
   """
-  pre: 0 <= shape < 6 and 0 <= mx < 3 and 0 <= my < 3 and 0 <= m2 < 4
+  pre: 0 <= shape < 9 and 0 <= mx < 3 and 0 <= my < 3 and 0 <= m2 < 4
   """
   world.fresh()
-  shape = rt.pick(shape, 6)
+  shape = rt.pick(shape, 9)
   mx = rt.pick(mx, 3)   # **kwargs name x: absent / REQUIRED / value
   my = rt.pick(my, 3)
   m2 = rt.pick(m2, 4)
   bx, by, b2 = rt.flag(bx), rt.flag(by), rt.flag(b2)
   rt.sig(('shapes', shape, mx, my, m2, bx, by, b2), nontrivial=True)
   exc = None
+  if shape == 2:
+    return _shape_vartail(mx, my, m2, b2, v2, ca, cx, cy)
+  if shape == 6:
+    return _shape_ntr(mx, m2, bx, b2, vx, v2, ca, c2)
+  if shape == 7:
+    return _shape_partial(mx, my, m2, bx, by, b2, vx, vy, v2, ca, cy, c2)
+  if shape == 8:
+    return _shape_family(mx, m2, bx, b2, vx, v2, c2)
   if shape == 0:
     # reqkw(a, **kw): REQUIRED passed for names that only **kwargs can take;
     # keyword order y-then-x when m2 is odd (leftover order = caller's order)
@@ -157,7 +401,7 @@ def c10_shapes(shape: int, mx: int, my: int, m2: int, bx: bool, by: bool, b2: bo
         return False
       head, names = _parse_missing(str(exc))
       with rt.native():
-        return names == missing and '`reqkw`' in head
+        return names == missing and '`reqkw`' in head and _names_cfg(head, 'vw.reqkw')
     if exc is not None or len(world.LOG) != 1:
       return False
     _, args, kwargs, _ = world.LOG[0]
@@ -186,69 +430,324 @@ def c10_shapes(shape: int, mx: int, my: int, m2: int, bx: bool, by: bool, b2: bo
           return rt.no('expected RuntimeError, got %r' % (exc,))
       head, names = _parse_missing(str(exc))
       with rt.native():
-        return (names == missing and 'run`' in head) or rt.no('message %r' % str(exc))
+        return ((names == missing and 'run`' in head and _names_cfg(head, 'vw.ReqM.run'))
+                or rt.no('message %r' % str(exc)))
     if exc is not None or len(world.LOG) != 1:
       return False
     return rt.same('steps', world.LOG[0][1][0], vx) and rt.same('seed', world.LOG[0][1][1], vy)
-  if shape in (1, 3, 4):
-    # class: b has signature REQUIRED; m2: omitted / pos REQUIRED / kw REQUIRED / value
-    # (shape 1: @gin.configurable class; 3: @gin.register class reached through get_configurable;
-    #  4: external_configurable wrapper)
-    cname = {1: 'ReqK', 3: 'ReqReg', 4: 'ReqExt'}[shape]
-    target = {1: world.ReqK, 3: gin.get_configurable(world.ReqReg), 4: world.ReqExt}[shape]
-    if b2: gin.bind_parameter('vw.%s.b' % cname, v2)
-    pos, kw = [ca], {}
-    if m2 == 1: pos.append(R)
-    elif m2 == 2: kw['b'] = R
-    elif m2 == 3: kw['b'] = c2
-    try:
-      target(*pos, **kw)
-    except Exception as e:
-      exc = e
-    if m2 != 3 and not b2:
-      if not isinstance(exc, RuntimeError) or world.LOG:
-        return False
-      head, names = _parse_missing(str(exc))
-      with rt.native():
-        return names == ['b'] and ('`%s`' % cname) in head
-    if exc is not None or len(world.LOG) != 1:
-      return False
-    _, args, kwargs, _ = world.LOG[0]
-    if args[1] is R:
-      return False
-    return rt.same('a', args[0], ca) and rt.same('b', args[1], c2 if m2 == 3 else v2)
-  # shape 2: REQUIRED in the *args tail is rejected, also when bindings exist
-  if b2: gin.bind_parameter('vw.reqvar.a', v2)
-  tail = [cx, cy]
-  if m2 == 1: tail[0] = R
-  elif m2 == 2: tail[1] = R
-  elif m2 == 3: tail = [R, R]
+  # shapes 1, 3, 4
+  # class: b has signature REQUIRED; m2: omitted / pos REQUIRED / kw REQUIRED / value
+  # (shape 1: @gin.configurable class; 3: @gin.register class reached through get_configurable;
+  #  4: external_configurable wrapper)
+  cname = {1: 'ReqK', 3: 'ReqReg', 4: 'ReqExt'}[shape]
+  target = {1: world.ReqK, 3: gin.get_configurable(world.ReqReg), 4: world.ReqExt}[shape]
+  if b2: gin.bind_parameter('vw.%s.b' % cname, v2)
+  pos, kw = [ca], {}
+  if m2 == 1: pos.append(R)
+  elif m2 == 2: kw['b'] = R
+  elif m2 == 3: kw['b'] = c2
   try:
-    world.reqvar(ca, *tail)
+    target(*pos, **kw)
   except Exception as e:
     exc = e
-  if m2 == 0:
-    if exc is not None or len(world.LOG) != 1:
+  if m2 != 3 and not b2:
+    if not isinstance(exc, RuntimeError) or world.LOG:
       return False
-    _, args, _, _ = world.LOG[0]
-    return rt.same('a', args[0], ca) and rt.same('x', args[1], cx) and rt.same('y', args[2], cy)
-  return isinstance(exc, ValueError) and not world.LOG
+    head, names = _parse_missing(str(exc))
+    with rt.native():
+      return names == ['b'] and ('`%s`' % cname) in head and _names_cfg(head, 'vw.' + cname)
+  if exc is not None or len(world.LOG) != 1:
+    return False
+  _, args, kwargs, _ = world.LOG[0]
+  if args[1] is R:
+    return False
+  return rt.same('a', args[0], ca) and rt.same('b', args[1], c2 if m2 == 3 else v2)
 
 
-def c10_register(kind: int, sig_a: bool, sig_b: bool, allow: int, deny: int, api: int, v: int) -> bool:
+def c10_callmarks(ma: int, mb: int, md: int, mz: bool, ba: int, bb: bool, bc: bool, bd: bool,
+                  va: int, vb: int, vc: int, vd: int, ca: int, cb: int, cd: int) -> bool:
   """
-  pre: 0 <= allow < 4 and 0 <= deny < 4 and 0 <= api < 3 and 0 <= kind < 2
+  pre: 0 <= ma < 5 and 0 <= mb < 3 and 0 <= md < 3 and 0 <= ba < 3
+  """
+  # req(a, b=REQUIRED, *, c=REQUIRED, d=DD): the caller marks a parameter that has an ORDINARY
+  # default (d), marks a name that is no parameter at all (zzz, and req has no **kwargs), or passes
+  # the marker buried inside a container; a bound LIST for the marked positional slot.
+  world.fresh()
+  ma = rt.pick(ma, 5)   # a: pos value / pos REQUIRED / kw REQUIRED / pos list holding the marker / kw dict holding it
+  mb = rt.pick(mb, 3)   # b: omitted (signature REQUIRED) / pos REQUIRED / pos value
+  md = rt.pick(md, 3)   # d: omitted / kw REQUIRED / kw value
+  ba = rt.pick(ba, 3)   # a unbound / bound to an int / bound to a nested list
+  mz, bb, bc, bd = rt.flag(mz), rt.flag(bb), rt.flag(bc), rt.flag(bd)
+  if mb in (1, 2) and ma in (2, 4):
+    rt.discard()        # a positional b needs a positional a
+  if ba == 2:
+    va = [va, [vb, 7]]
+  if ba: gin.bind_parameter('vw.req.a', va)
+  if bb: gin.bind_parameter('vw.req.b', vb)
+  if bc: gin.bind_parameter('vw.req.c', vc)
+  if bd: gin.bind_parameter('vw.req.d', vd)
+  rt.sig(('callmarks', ma, mb, md, mz, ba, bb, bc, bd), nontrivial=True)
+  pos, kw, missing = [], {}, []
+  box = None
+  if ma == 0: pos.append(ca); exp_a = ca
+  elif ma == 3: box = [R, ca]; pos.append(box); exp_a = None
+  elif ma == 4: box = {'k': R}; kw['a'] = box; exp_a = None
+  else:
+    if ma == 1: pos.append(R)
+    else: kw['a'] = R
+    if ba: exp_a = va
+    else: missing.append('a'); exp_a = None
+  if mb == 2: pos.append(cb); exp_b = cb
+  else:
+    if mb == 1: pos.append(R)
+    if bb: exp_b = vb
+    else: missing.append('b'); exp_b = None
+  if bc: exp_c = vc
+  else: missing.append('c'); exp_c = None
+  if md == 2: kw['d'] = cd; exp_d = cd
+  elif md == 1:
+    kw['d'] = R
+    if bd: exp_d = vd
+    else: missing.append('d'); exp_d = None      # must NOT fall back to the default DD
+  else:
+    exp_d = vd if bd else world.DD
+  if mz:
+    kw['zzz'] = R
+  exc = None
+  try:
+    world.req(*pos, **kw)
+  except Exception as e:
+    exc = e
+  if mz:
+    # a marked name that is not a parameter can never be filled: the call must fail, body not run.
+    # The statement does not fix the error for a non-parameter (Python's own TypeError would be as
+    # clean); only when gin answers with its "not provided in config" list is that list judged: the
+    # real unfilled parameters in signature order, and the marked name listed once.
+    if exc is None or world.LOG:
+      return rt.no('marked non-parameter: body ran')
+    if not isinstance(exc, RuntimeError):
+      return True
+    head, names = _parse_missing(str(exc))
+    if names is None:
+      return True
+    with rt.native():
+      if names.count('zzz') != 1:
+        return rt.no('zzz not named exactly once: %r' % (names,))
+      if [n for n in names if n != 'zzz'] != missing:
+        return rt.no('names %r, expected %r (+zzz)' % (names, missing))
+    return _names_cfg(head, 'vw.req')
+  if missing:
+    if world.LOG:
+      return rt.no('body ran')
+    return _is_missing_error(exc, missing, 'req', 'vw.req')
+  if exc is not None or len(world.LOG) != 1:
+    return False
+  _, args, kwargs, _ = world.LOG[0]
+  for got in (args[0], args[1], kwargs['c'], kwargs['d']):
+    if got is R:
+      return rt.no('marker reached the body')
+  if box is not None:
+    # a container that merely holds the marker is an ordinary caller value: passed through untouched
+    got = args[0]
+    if ma == 3:
+      if not (type(got) is list and len(got) == 2 and got[0] is R and rt.same('box', got[1], ca)):
+        return rt.no('list holding the marker was altered')
+    else:
+      if not (type(got) is dict and len(got) == 1 and got.get('k') is R):
+        return rt.no('dict holding the marker was altered')
+  elif not rt.same('a', args[0], exp_a):
+    return False
+  return (rt.same('b', args[1], exp_b) and rt.same('c', kwargs['c'], exp_c) and
+          rt.same('d', kwargs['d'], exp_d))
+
+
+LOCS = ['', 's', 's/t', 't']
+STACKS = [[], ['s'], ['s', 't'], ['s', 't'], ['s', 't'], ['t']]
+
+
+def c10_deep(stk: int, who: int, oth: bool, p0: bool, p1: bool, p2: bool, p3: bool,
+             v0: int, v1: int, v2: int, v3: int, w: int, ca: int) -> bool:
+  """
+  pre: 0 <= stk < 6 and 0 <= who < 6
+  """
+  # ONE marked parameter of req with bindings at any subset of the scopes '', 's', 's/t', 't';
+  # the call is made under the stacks [], [s], [s,t] (nested / as one 's/t' scope / through
+  # gin.get_configurable('s/t/vw.req')) and [t].  Applicable = the scope is a prefix of the stack;
+  # the deepest applicable one supplies the value (C09 decides that rule; here: the value lands in the
+  # right slot, and "no binding applies" means exactly "no prefix scope has one").
+  world.fresh()
+  stk = rt.pick(stk, 6)
+  who = rt.pick(who, 6)   # a pos REQUIRED / a kw REQUIRED / b signature / b pos REQUIRED / c signature / c kw REQUIRED
+  oth = rt.flag(oth)      # the other two REQUIRED parameters are bound at the root (else they are missing too)
+  focus = 'aabbcc'[who]
+  pres = [rt.flag(p0), rt.flag(p1), rt.flag(p2), rt.flag(p3)]
+  vals = [v0, v1, v2, v3]
+  for i in range(4):
+    if pres[i]:
+      gin.bind_parameter((LOCS[i], 'vw.req', focus), vals[i])
+  if oth:
+    for name in 'abc':
+      if name != focus:
+        gin.bind_parameter(('', 'vw.req', name), w)
+  stack = STACKS[stk]
+  rt.sig(('deep', stk, who, oth, tuple(pres)), nontrivial=True)
+  has, val = False, None
+  for i in range(4):      # LOCS is ordered so that a deeper prefix comes later
+    comps = LOCS[i].split('/') if LOCS[i] else []
+    if pres[i] and comps == stack[:len(comps)]:
+      has, val = True, vals[i]
+  pos, kw = [], {}
+  if who == 0: pos.append(R)
+  elif who == 1: kw['a'] = R
+  else: pos.append(ca)
+  if who == 3: pos.append(R)
+  if who == 5: kw['c'] = R
+  exp, missing = {}, []
+  for name in 'abc':
+    if name == focus:
+      if has: exp[name] = val
+      else: missing.append(name)
+    elif name == 'a':
+      exp[name] = ca      # the caller's own value
+    elif oth:
+      exp[name] = w
+    else:
+      missing.append(name)
+  exc = None
+  try:
+    if stk == 0 or stk == 4:
+      (gin.get_configurable('s/t/vw.req') if stk == 4 else world.req)(*pos, **kw)
+    elif stk == 2:
+      with gin.config_scope('s'):
+        with gin.config_scope('t'):
+          world.req(*pos, **kw)
+    else:
+      with gin.config_scope({1: 's', 3: 's/t', 5: 't'}[stk]):
+        world.req(*pos, **kw)
+  except Exception as e:
+    exc = e
+  if missing:
+    if world.LOG:
+      return rt.no('body ran')
+    return _is_missing_error(exc, missing, 'req', 'vw.req')
+  if exc is not None or len(world.LOG) != 1:
+    return False
+  _, args, kwargs, _ = world.LOG[0]
+  for got in (args[0], args[1], kwargs['c']):
+    if got is R:
+      return rt.no('marker reached the body')
+  return (rt.same('a', args[0], exp['a']) and rt.same('b', args[1], exp['b']) and
+          rt.same('c', kwargs['c'], exp['c']) and kwargs['d'] == world.DD)
+
+
+def c10_marker(kind: int) -> bool:
+  """
+  pre: 0 <= kind < 11
+  """
+  # The marker arriving by unusual routes.  "The REQUIRED marker itself is never passed to the
+  # wrapped function in place of such a parameter": on every path the only thing that is a violation
+  # is a body that RAN and received gin.REQUIRED (identity) for a parameter marked REQUIRED, or a
+  # wrong value where an ordinary binding applies.
+  world.fresh()
+  kind = rt.pick(kind, 11)
+  rt.sig(('marker', kind), nontrivial=True)
+  exc = None
+  fn, pos, kw = world.req, [1], {}
+  want = None               # (index or key, value) expected when an ordinary binding applies
+  must_fail = None          # expected missing list when the statement fixes a failure
+  with rt.native():
+    if kind == 0:           # control: an ordinary parsed binding fills the signature-REQUIRED b
+      gin.parse_config('vw.req.b = 5\nvw.req.c = 6')
+      want = (1, 5)
+    elif kind == 1:         # the bound value is the marker itself (the "must be overridden" idiom)
+      gin.parse_config('vw.req.b = %gin.REQUIRED\nvw.req.c = 6')
+    elif kind == 2:         # ... and the caller marks the slot positionally as well
+      gin.parse_config('vw.req.b = %gin.REQUIRED\nvw.req.c = 6')
+      pos = [1, R]
+    elif kind == 3:         # ... for the keyword-only c, marked by the caller by keyword
+      gin.parse_config('vw.req.b = 5\nvw.req.c = %gin.REQUIRED')
+      kw = {'c': R}
+    elif kind == 4:         # the marker bound through the API
+      gin.bind_parameter('vw.req.b', R)
+      gin.bind_parameter('vw.req.c', 6)
+    elif kind == 5:         # signature REQUIRED behind a signature-agnostic decorator, unbound
+      fn, pos = wreq, []
+    elif kind == 6:         # ... bound: filled
+      gin.parse_config('vw10.wreq.a = 8')
+      fn, pos, want = wreq, [], (0, 8)
+    elif kind == 7:         # ... marked positionally by the caller (gin cannot name the slot)
+      fn, pos = wreq, [R]
+    elif kind == 8:         # ... marked by keyword by the caller, unbound: a clean failure naming a
+      fn, pos, kw, must_fail = wreq, [], {'a': R}, ['a']
+    elif kind == 9:         # b bound to an evaluated reference while c is unfilled
+      gin.parse_config('vw.req.b = @vw.src()')
+      must_fail = ['c']
+    else:                   # kind 10: ... and with c filled the reference's result lands in slot b
+      gin.parse_config('vw.req.b = @vw.src()\nvw.req.c = 6\nvw.src.v = 4')
+      want = (1, [4])
+    try:
+      fn(*pos, **kw)
+    except Exception as e:
+      exc = e
+    ran = [l for l in world.LOG if l[0] in ('req', 'wreq')]
+    if must_fail is not None:
+      if ran:
+        return rt.no('body ran')
+      return _is_missing_error(exc, must_fail, None, 'vw.req' if fn is world.req else 'vw10.wreq')
+    if want is not None:
+      if exc is not None or len(ran) != 1:
+        return rt.no('expected a filled call, got %r' % (exc,))
+      return rt.same('filled', ran[0][1][want[0]], want[1])
+    # kinds 1-5, 7: a failure before the body is fine; a body that received the marker is not
+    if exc is not None:
+      return (not ran) or rt.no('failed after the body ran')
+    for _, args, kwargs, _ in ran:
+      for got in list(args) + list(kwargs.values()):
+        if got is R:
+          return rt.no('the body ran and received gin.REQUIRED')
+    return True
+
+
+def _reg_snapshot():
+  return (copy.deepcopy(gc._REGISTRY._selector_tree), dict(gc._REGISTRY._selector_map),
+          dict(gc._INVERSE_REGISTRY), dict(gc._RENAMED_SELECTORS))
+
+
+def _reg_restore(snap):
+  for store, saved in ((gc._REGISTRY._selector_tree, snap[0]), (gc._REGISTRY._selector_map, snap[1]),
+                       (gc._INVERSE_REGISTRY, snap[2]), (gc._RENAMED_SELECTORS, snap[3])):
+    store.clear()
+    store.update(saved)
+
+
+def c10_register(kind: int, sig_a: bool, sig_b: bool, allow: int, deny: int, api: int, tup: bool,
+                 v: int) -> bool:
+  """
+  pre: 0 <= allow < 4 and 0 <= deny < 4 and 0 <= api < 3 and 0 <= kind < 6
   """
   world.fresh()
   sig_a, sig_b = rt.flag(sig_a), rt.flag(sig_b)
   allow = [None, ['a'], ['b'], ['a', 'b']][rt.pick(allow, 4)]
   deny = [None, ['a'], ['b'], ['a', 'b']][rt.pick(deny, 4)]
   api = rt.pick(api, 3)
-  kind = rt.pick(kind, 2)            # 0: a function, 1: a class (its __init__ carries the markers)
-  rt.sig(('register', kind, sig_a, sig_b, allow, deny, api), nontrivial=sig_a or sig_b)
+  # 0: a function f(a=, b=); 1: a class (its __init__ carries the markers); 2: a function whose b is
+  # keyword-only, f(a=, *, b=) (the kwonlydefaults branch); 3: a METHOD registered with the lists (its
+  # class is registered afterwards); 4: a class that has a registered method, registered with the lists;
+  # 5: a typing.NamedTuple (the markers are defaults of the generated __new__)
+  kind = rt.pick(kind, 6)
+  tup = rt.flag(tup)                 # the lists are given as tuples
+  if kind == 3 and api != 1:
+    rt.discard()                     # methods are registered with @gin.register
+  rt.sig(('register', kind, sig_a, sig_b, allow, deny, api, tup), nontrivial=sig_a or sig_b)
   with rt.native():
+    if tup:
+      allow = tuple(allow) if allow is not None else None
+      deny = tuple(deny) if deny is not None else None
     da = R if sig_a else 1
     db = R if sig_b else 2
+    snap = _reg_snapshot()
+    before = set(gc._REGISTRY._selector_map)
+    mod = __name__                   # default module of a method registered without one
 
     def c10tmp(a=da, b=db):
       world.rec('c10tmp', a, b)
@@ -257,10 +756,57 @@ def c10_register(kind: int, sig_a: bool, sig_b: bool, allow: int, deny: int, api
       class c10tmp:   # noqa: F811
         def __init__(self, a=da, b=db):
           world.rec('c10tmp', a, b)
+    elif kind == 2:
+      def c10tmp(a=da, *, b=db):   # noqa: F811
+        world.rec('c10tmp', a, b)
+    elif kind == 4:
+      class c10tmp:   # noqa: F811
+        def __init__(self, a=da, b=db):
+          world.rec('c10tmp', a, b)
 
-    before = set(gc._REGISTRY._selector_map)
+        @gin.register
+        def run(self, x=1):
+          return x
+    elif kind == 5:
+      class c10tmp(typing.NamedTuple):   # noqa: F811
+        a: int = da
+        b: int = db
   exc = None
   try:
+    bad = False
+    if allow and deny:
+      bad = True
+    for name, marked in (('a', sig_a), ('b', sig_b)):
+      if marked and ((deny and name in deny) or (allow and name not in allow)):
+        bad = True
+    if kind == 3:
+      with rt.native():
+        c10K = None
+        try:
+          class c10K:   # noqa: F811
+            def __init__(self):
+              pass
+
+            @gin.register(allowlist=allow, denylist=deny)
+            def c10tmp(self, a=da, b=db):
+              world.rec('c10tmp', a, b)
+        except Exception as e:
+          exc = e
+        after = set(gc._REGISTRY._selector_map)
+      if bad:
+        return isinstance(exc, ValueError) and after == before
+      if exc is not None or after != before | {mod + '.c10tmp'}:
+        return False
+      gin.register('c10K', module='vw10')(c10K)
+      if set(gc._REGISTRY._selector_map) != before | {'vw10.c10K', 'vw10.c10K.c10tmp'}:
+        return rt.no('method not re-keyed under its class')
+      if sig_a:
+        gin.bind_parameter('vw10.c10K.c10tmp.a', v)
+        if sig_b:
+          gin.bind_parameter('vw10.c10K.c10tmp.b', v)
+        gin.get_configurable(c10K)().c10tmp()
+        return len(world.LOG) == 1 and rt.same('v', world.LOG[0][1][0], v)
+      return True
     try:
       if api == 0:
         gin.configurable(c10tmp.__name__, module='vw', allowlist=allow, denylist=deny)(c10tmp)
@@ -271,37 +817,32 @@ def c10_register(kind: int, sig_a: bool, sig_b: bool, allow: int, deny: int, api
     except Exception as e:
       exc = e
     after = set(gc._REGISTRY._selector_map)
-    bad = False
-    if allow and deny:
-      bad = True
-    for name, marked in (('a', sig_a), ('b', sig_b)):
-      if marked and ((deny and name in deny) or (allow and name not in allow)):
-        bad = True
-    if bad:
-      return isinstance(exc, ValueError) and after == before
-    if exc is not None or after != before | {'vw.c10tmp'}:
-      return False
+    if kind == 4:
+      # "is rejected at registration": the rejection, and the name being registered is not added.
+      # (gin re-keys the class's registered method before it validates, so after != before here;
+      #  the statement does not speak about that.)
+      if bad:
+        return isinstance(exc, ValueError) and 'vw.c10tmp' not in after
+      if exc is not None or 'vw.c10tmp' not in after:
+        return False
+    else:
+      if bad:
+        return isinstance(exc, ValueError) and after == before
+      if exc is not None or after != before | {'vw.c10tmp'}:
+        return False
     # a correctly registered REQUIRED parameter is filled from a binding
     if sig_a:
       gin.bind_parameter('vw.c10tmp.a', v)
       if sig_b:
         gin.bind_parameter('vw.c10tmp.b', v)
-      gin.get_configurable('vw.c10tmp')()
+      out = gin.get_configurable('vw.c10tmp')()
+      if kind == 5:
+        return isinstance(out, tuple) and out.a is not R and rt.same('v', out.a, v)
       return len(world.LOG) == 1 and rt.same('v', world.LOG[0][1][0], v)
     return True
   finally:
     with rt.native():
-      gc._REGISTRY._selector_map.pop('vw.c10tmp', None)
-      if 'vw.c10tmp' in before:
-        pass
-      else:
-        try:
-          # rebuild nothing: remove the trie entry through the public pop when present
-          gc._REGISTRY['vw.c10tmp'] = None
-          gc._REGISTRY.pop('vw.c10tmp')
-        except Exception:
-          pass
-      gc._INVERSE_REGISTRY.pop(c10tmp, None)
+      _reg_restore(snap)
 
 
 HARNESSES = {
@@ -318,22 +859,111 @@ HARNESSES = {
                                         mc=list(range(3)), nonev=[0, 1, 2, 3]), budget_s=600),
         },
         bounds='req(a, b=REQUIRED, *, c=REQUIRED, d=default): 5 caller modes for a and b, 3 for c; '
-               'bindings at root and in scope s; active scope [] or [s]; values: all ints, and None for the root bindings'),
+               'bindings at root and in scope s; active scope [] or [s]; values: all ints, and None for the root bindings; '
+               'the selector quoted in the error resolves to the called configurable'),
+    'c10_callmarks': dict(
+        fn='c10_callmarks',
+        anchors=['gin.config:gin_wrapper', 'gin.config:_order_by_signature'],
+        smoke=[dict(ma=0, mb=0, md=1, mz=False, ba=0, bb=True, bc=True, bd=False,
+                    va=1, vb=2, vc=3, vd=4, ca=5, cb=6, cd=7),
+               dict(ma=0, mb=0, md=1, mz=False, ba=0, bb=True, bc=True, bd=True,
+                    va=1, vb=2, vc=3, vd=4, ca=5, cb=6, cd=7),
+               dict(ma=0, mb=0, md=0, mz=True, ba=0, bb=True, bc=True, bd=False,
+                    va=1, vb=2, vc=3, vd=4, ca=5, cb=6, cd=7),
+               dict(ma=1, mb=1, md=0, mz=True, ba=0, bb=False, bc=False, bd=False,
+                    va=1, vb=2, vc=3, vd=4, ca=5, cb=6, cd=7),
+               dict(ma=3, mb=2, md=2, mz=False, ba=1, bb=True, bc=True, bd=True,
+                    va=1, vb=2, vc=3, vd=4, ca=5, cb=6, cd=7),
+               dict(ma=4, mb=0, md=0, mz=False, ba=0, bb=True, bc=True, bd=False,
+                    va=1, vb=2, vc=3, vd=4, ca=5, cb=6, cd=7),
+               dict(ma=1, mb=1, md=1, mz=False, ba=2, bb=True, bc=True, bd=True,
+                    va=1, vb=2, vc=3, vd=4, ca=5, cb=6, cd=7)],
+        tiers={'quick': dict(split=dict(ma=list(range(5)), md=[0, 1, 2]), budget_s=100),
+               'thorough': dict(split=dict(ma=list(range(5)), md=[0, 1, 2], mb=[0, 1, 2]), budget_s=300)},
+        bounds='req(a, b=REQUIRED, *, c=REQUIRED, d=default): the caller marks d (a parameter with an ordinary '
+               'default) / marks zzz (no parameter, no **kwargs) / passes a list or dict that merely holds the '
+               'marker for a; a: 5 modes, b: 3, d: 3; root bindings of a (none / int / nested list), b, c, d: '
+               'every subset; all int values'),
+    'c10_deep': dict(
+        fn='c10_deep',
+        anchors=['gin.config:gin_wrapper', 'gin.config:_order_by_signature', 'gin.config:get_configurable'],
+        smoke=[dict(stk=4, who=0, oth=True, p0=False, p1=False, p2=True, p3=True,
+                    v0=1, v1=2, v2=3, v3=4, w=5, ca=6),
+               dict(stk=2, who=3, oth=False, p0=True, p1=True, p2=False, p3=True,
+                    v0=1, v1=2, v2=3, v3=4, w=5, ca=6),
+               dict(stk=3, who=5, oth=True, p0=False, p1=False, p2=False, p3=True,
+                    v0=1, v1=2, v2=3, v3=4, w=5, ca=6),
+               dict(stk=5, who=2, oth=True, p0=False, p1=True, p2=True, p3=True,
+                    v0=1, v1=2, v2=3, v3=4, w=5, ca=6)],
+        tiers={'quick': dict(split=dict(stk=list(range(6)), oth=[False, True]), budget_s=100),
+               'thorough': dict(split=dict(stk=list(range(6)), who=[0, 1, 2, 3, 4, 5], oth=[False, True]),
+                                budget_s=300)},
+        bounds='one marked parameter of req (a pos/kw marked, b signature/pos marked, c signature/kw marked) bound at '
+               'every subset of the scopes {root, s, s/t, t}; call stacks [], [s], [s,t] nested, [s,t] as one '
+               "scope string, [s,t] through gin.get_configurable('s/t/vw.req'), [t]; the other two REQUIRED "
+               'parameters bound at the root or not; all int values'),
+    'c10_marker': dict(
+        fn='c10_marker',
+        anchors=['gin.config:gin_wrapper'],
+        smoke=[dict(kind=k) for k in range(11)],
+        tiers={'quick': dict(split={}, budget_s=100),
+               'thorough': dict(split={}, budget_s=100)},
+        bounds='11 concrete routes of the marker: bound value %gin.REQUIRED (signature default / caller positional / '
+               'caller keyword), bind_parameter(..., gin.REQUIRED), signature REQUIRED behind a signature-agnostic '
+               'functools.wraps decorator (unbound, bound, caller-marked positionally and by keyword), a bound '
+               'evaluated reference with another REQUIRED unfilled / filled'),
     'c10_shapes': dict(
         fn='c10_shapes',
         anchors=['gin.config:gin_wrapper'],
         smoke=[dict(shape=0, mx=1, my=1, m2=1, bx=False, by=False, b2=False, vx=1, vy=2,
+                    v2=3, cx=4, cy=5, c2=6, ca=7),
+               dict(shape=2, mx=1, my=0, m2=0, bx=False, by=False, b2=True, vx=1, vy=2,
+                    v2=3, cx=4, cy=5, c2=6, ca=7),
+               dict(shape=2, mx=1, my=1, m2=1, bx=False, by=False, b2=False, vx=1, vy=2,
+                    v2=3, cx=4, cy=5, c2=6, ca=7),
+               dict(shape=6, mx=1, my=0, m2=0, bx=False, by=False, b2=True, vx=1, vy=2,
+                    v2=3, cx=4, cy=5, c2=6, ca=7),
+               dict(shape=6, mx=1, my=0, m2=1, bx=True, by=False, b2=True, vx=1, vy=2,
+                    v2=3, cx=4, cy=5, c2=6, ca=7),
+               dict(shape=7, mx=1, my=1, m2=0, bx=True, by=False, b2=False, vx=1, vy=2,
+                    v2=3, cx=4, cy=5, c2=6, ca=7),
+               dict(shape=7, mx=0, my=0, m2=2, bx=True, by=True, b2=True, vx=1, vy=2,
+                    v2=3, cx=4, cy=5, c2=6, ca=7),
+               dict(shape=8, mx=1, my=0, m2=0, bx=True, by=False, b2=False, vx=1, vy=2,
+                    v2=3, cx=4, cy=5, c2=6, ca=7),
+               dict(shape=8, mx=0, my=0, m2=1, bx=True, by=False, b2=True, vx=1, vy=2,
                     v2=3, cx=4, cy=5, c2=6, ca=7)],
-        tiers={'quick': dict(split=dict(shape=[0, 1, 2, 3, 4, 5]), budget_s=100),
-               'thorough': dict(split=dict(shape=[0, 1, 2, 3, 4, 5], m2=[0, 1, 2, 3]), budget_s=300)},
+        tiers={'quick': dict(split=dict(shape=list(range(9))), budget_s=100),
+               'thorough': dict(split=dict(shape=list(range(9)), m2=[0, 1, 2, 3]), budget_s=300)},
         bounds='**kwargs names marked REQUIRED in both keyword orders; classes with signature '
-               'REQUIRED (@configurable, @register reached through get_configurable, external_configurable); REQUIRED at each *args position; a registered method (re-keyed under its registered class) with signature REQUIRED'),
+               'REQUIRED (@configurable, @register reached through get_configurable, external_configurable); '
+               'reqvar(a, *rest): a given or marked x tail of length 0-2 x the marker at each tail position; '
+               'a registered method (re-keyed under its registered class) with signature REQUIRED; '
+               'a typing.NamedTuple (built through __new__) with a REQUIRED default; '
+               'external_configurable(functools.partial(f, b=REQUIRED)) (keyword-only defaults of the partial); '
+               'two configurables sharing their short name (the error must name the called one)'),
     'c10_register': dict(
         fn='c10_register',
         anchors=['gin.config:_get_validated_required_kwargs', 'gin.config:_make_configurable'],
-        smoke=[dict(kind=0, sig_a=True, sig_b=False, allow=2, deny=0, api=0, v=5),
-               dict(kind=1, sig_a=True, sig_b=False, allow=1, deny=0, api=1, v=5)],
-        tiers={'quick': dict(split=dict(api=[0, 1, 2], kind=[0, 1]), budget_s=100),
-               'thorough': dict(split=dict(api=[0, 1, 2], kind=[0, 1], allow=[0, 1, 2, 3]), budget_s=300)},
-        bounds='a function or a class with signature REQUIRED on a and/or b x 4 allowlists x 4 denylists x 3 registration APIs'),
+        smoke=[dict(kind=0, sig_a=True, sig_b=False, allow=2, deny=0, api=0, tup=False, v=5),
+               dict(kind=1, sig_a=True, sig_b=False, allow=1, deny=0, api=1, tup=False, v=5),
+               dict(kind=2, sig_a=False, sig_b=True, allow=1, deny=0, api=0, tup=False, v=5),
+               dict(kind=2, sig_a=True, sig_b=True, allow=0, deny=0, api=0, tup=True, v=5),
+               dict(kind=2, sig_a=False, sig_b=True, allow=0, deny=2, api=2, tup=True, v=5),
+               dict(kind=3, sig_a=True, sig_b=False, allow=0, deny=1, api=1, tup=False, v=5),
+               dict(kind=3, sig_a=True, sig_b=False, allow=0, deny=2, api=1, tup=False, v=5),
+               dict(kind=4, sig_a=True, sig_b=False, allow=0, deny=1, api=1, tup=False, v=5),
+               dict(kind=4, sig_a=True, sig_b=False, allow=1, deny=0, api=0, tup=True, v=5),
+               dict(kind=5, sig_a=True, sig_b=True, allow=0, deny=2, api=0, tup=False, v=5),
+               dict(kind=5, sig_a=True, sig_b=False, allow=1, deny=0, api=2, tup=False, v=5)],
+        tiers={'quick': dict(split=dict(api=[0, 1, 2], kind=[0, 1, 2, 3, 4, 5]), budget_s=100),
+               'thorough': dict(split=dict(api=[0, 1, 2], kind=[0, 1, 2, 3, 4, 5], allow=[0, 1, 2, 3]),
+                                budget_s=300)},
+        bounds='a function f(a,b) / a class / a function with keyword-only b / a method registered with the lists '
+               '(then its class) / a class owning a registered method / a typing.NamedTuple; signature REQUIRED on a and/or b x 4 '
+               'allowlists x 4 denylists (as lists or tuples) x 3 registration APIs'),
 }
+
+OUTSIDE = ('caller marks the same parameter twice (req(R, a=R)): the statement does not decide between '
+           'TypeError and filling; callable instances / bound methods with a positional marker (C01 argspec '
+           'offset); allowlist=[] (treated as no allowlist); bound values other than ints, None and one nested list')
